@@ -135,6 +135,9 @@ def decide(prop: str, vres: dict, kani: dict, tier: str, seed: int, t0: float, m
     failed_obls = set()
     for f in vres.get('failures', []):
         fi = fninfo.get(f.get('fn'))
+        if (f.get('fn') or '').startswith('spec::'):
+            undecided.append('specification library does not verify: %s (%s)' % (f['fn'], f['message'][:80]))
+            continue
         if f['class'] == 'unsupported':
             # undecided only if the function serves this property
             if f.get('fn') in fns_serving or f.get('fn') is None:
